@@ -5,6 +5,7 @@ package main
 // int mode: mathematical integers; code-side callers add overflow obligations.
 
 import (
+	"strings"
 	"fmt"
 	"go/constant"
 	"go/token"
@@ -61,7 +62,7 @@ func (fc *FnCtx) constVal(k constant.Value, ty types.Type) Val {
 		if b == nil {
 			fc.fail(token.NoPos, "non-integer constant %s for integer type", k)
 		}
-		if fc.bv {
+		if fc.isBVType(ty) {
 			return Val{T: bvLit(b, intWidth(ty)), Ty: ty, K: k}
 		}
 		return Val{T: intLit(b), Ty: ty, K: k}
@@ -198,7 +199,7 @@ func (fc *FnCtx) unify(a, b Val) (Val, Val) {
 }
 
 func (fc *FnCtx) rangeFact(t string, ty types.Type) string {
-	if fc.bv || !isInteger(ty) || isUntyped(ty) {
+	if !isInteger(ty) || isUntyped(ty) || fc.isBVType(ty) {
 		return "true"
 	}
 	lo, hi := intRange(ty)
@@ -242,7 +243,7 @@ func (fc *FnCtx) binop(op token.Token, a, b Val, st *State, pos token.Pos) Val {
 		switch op {
 		case token.ADD:
 			fc.declareOnce("str.cat", "(declare-fun str.cat (Str Str) Str)")
-			fc.declareAxiomOnce("str.cat.ax", "str.cat", fmt.Sprintf("(assert (forall ((a Str) (b Str)) (! (= (str.len (str.cat a b)) (%s (str.len a) (str.len b))) :pattern ((str.cat a b)))))", map[bool]string{true: "bvadd", false: "+"}[fc.bv]))
+			fc.declareAxiomOnce("str.cat.ax", "str.cat", fmt.Sprintf("(assert (forall ((a Str) (b Str)) (! (= (str.len (str.cat a b)) (%s (str.len a) (str.len b))) :pattern ((str.cat a b)))))", map[bool]string{true: "bvadd", false: "+"}[fc.idxBV()]))
 			return Val{T: app("str.cat", a.T, b.T), Ty: ty}
 		case token.LSS, token.LEQ, token.GTR, token.GEQ:
 			fc.declareOnce("str.lt", "(declare-fun str.lt (Str Str) Bool)")
@@ -262,7 +263,7 @@ func (fc *FnCtx) binop(op token.Token, a, b Val, st *State, pos token.Pos) Val {
 		fc.fail(pos, "operator %s on unsupported type %s", op, ty)
 	}
 	uns := isUnsigned(ty)
-	if fc.bv {
+	if fc.isBVType(ty) {
 		var f string
 		switch op {
 		case token.ADD:
@@ -376,8 +377,8 @@ func (fc *FnCtx) shift(op token.Token, a, b Val, st *State, pos token.Pos) Val {
 	if b.K != nil && isUntyped(b.Ty) {
 		b = fc.coerce(b, types.Typ[types.Uint])
 	}
-	if !fc.bv {
-		// only constant shift counts in int mode
+	if !fc.isBVType(ty) {
+		// only constant shift counts for mathematical integers
 		if b.K != nil {
 			n, _ := constant.Int64Val(constant.ToInt(b.K))
 			p := new(big.Int).Lsh(big.NewInt(1), uint(n))
@@ -394,6 +395,28 @@ func (fc *FnCtx) shift(op token.Token, a, b Val, st *State, pos token.Pos) Val {
 	}
 	w := intWidth(ty)
 	cw := intWidth(b.Ty)
+	if !fc.isBVType(b.Ty) {
+		// count is a mathematical int (mixed mode)
+		if st != nil {
+			fc.assert(st, app(">=", b.T, "0"), "shift", "shift count is non-negative", pos)
+		}
+		cntBV := int2bvTerm(b.T, w)
+		var f string
+		if op == token.SHL {
+			f = "bvshl"
+		} else if isUnsigned(ty) {
+			f = "bvlshr"
+		} else {
+			f = "bvashr"
+		}
+		var sat string
+		if f == "bvashr" {
+			sat = app("bvashr", a.T, bvLit(big.NewInt(int64(w-1)), w))
+		} else {
+			sat = bvLit(big.NewInt(0), w)
+		}
+		return Val{T: ite(app(">=", b.T, fmt.Sprint(w)), sat, app(f, a.T, cntBV)), Ty: ty}
+	}
 	if st != nil && !isUnsigned(b.Ty) {
 		fc.assert(st, app("bvsge", b.T, bvLit(big.NewInt(0), cw)), "shift", "shift count is non-negative", pos)
 	}
@@ -444,7 +467,7 @@ func (fc *FnCtx) unop(op token.Token, a Val, st *State, pos token.Pos) Val {
 	case token.ADD:
 		return a
 	case token.SUB:
-		if fc.bv {
+		if fc.isBVType(a.Ty) {
 			return Val{T: app("bvneg", a.T), Ty: a.Ty}
 		}
 		t := app("-", a.T)
@@ -453,7 +476,7 @@ func (fc *FnCtx) unop(op token.Token, a Val, st *State, pos token.Pos) Val {
 		}
 		return Val{T: t, Ty: a.Ty}
 	case token.XOR:
-		if fc.bv {
+		if fc.isBVType(a.Ty) {
 			return Val{T: app("bvnot", a.T), Ty: a.Ty}
 		}
 		// ^x == -x-1 (signed) or max-x (unsigned)
@@ -480,7 +503,30 @@ func (fc *FnCtx) convert(v Val, to types.Type, pos token.Pos) Val {
 	}
 	switch {
 	case isInteger(from) && isInteger(to):
-		if fc.bv {
+		fb, tb := fc.isBVType(from), fc.isBVType(to)
+		if fb && !tb {
+			// bit-vector -> mathematical int (mixed mode): exact value of the machine integer
+			return Val{T: fc.bvToInt(v.T, from), Ty: to}
+		}
+		if !fb && tb {
+			// mathematical int -> bit-vector: wraps modulo 2^w exactly as the Go conversion does.
+			// Peephole: int(x) converted back collapses to a bit-vector conversion of x.
+			if inner, iw, signed, ok := peelBvToInt(v.T); ok {
+				tw := intWidth(to)
+				switch {
+				case iw == tw:
+					return Val{T: inner, Ty: to}
+				case iw > tw:
+					return Val{T: app(fmt.Sprintf("(_ extract %d 0)", tw-1), inner), Ty: to}
+				case !signed:
+					return Val{T: app(fmt.Sprintf("(_ zero_extend %d)", tw-iw), inner), Ty: to}
+				default:
+					return Val{T: app(fmt.Sprintf("(_ sign_extend %d)", tw-iw), inner), Ty: to}
+				}
+			}
+			return Val{T: int2bvTerm(v.T, intWidth(to)), Ty: to}
+		}
+		if fb && tb {
 			fw, tw := intWidth(from), intWidth(to)
 			switch {
 			case fw == tw:
@@ -577,4 +623,131 @@ func (fc *FnCtx) opaqueDivFn(k *big.Int) string {
 		fc.addAxiom(fn, fmt.Sprintf("(assert (forall ((a (_ BitVec 64))) (! (=> (bvsle (_ bv0 64) a) (and (bvsle (_ bv0 64) (%s a)) (bvsle (%s a) a))) :pattern ((%s a)))))", fn, fn, fn))
 	}
 	return fn
+}
+
+// bvToInt: the mathematical value of a machine integer held in a bit-vector.
+func (fc *FnCtx) bvToInt(t string, ty types.Type) string {
+	w := intWidth(ty)
+	if isUnsigned(ty) {
+		fn := fmt.Sprintf("ubv2int%d", w)
+		fc.declareOnce(fn, fmt.Sprintf("(define-fun %s ((x (_ BitVec %d))) Int (bv2nat x))", fn, w))
+		return app(fn, t)
+	}
+	fn := fmt.Sprintf("sbv2int%d", w)
+	m := new(big.Int).Lsh(big.NewInt(1), uint(w))
+	if !fc.declared[fn] {
+		fc.declared[fn] = true
+		fc.addPre(fmt.Sprintf("(declare-fun %s ((_ BitVec %d)) Int)", fn, w))
+		fc.addAxiom(fn, fmt.Sprintf("(assert (forall ((x (_ BitVec %d))) (! (= (%s x) (ite (bvslt x (_ bv0 %d)) (- (bv2nat x) %s) (bv2nat x))) :pattern ((%s x)))))", w, fn, w, m.String(), fn))
+	}
+	return app(fn, t)
+}
+
+// peelBvToInt recognises (sbv2intW x) / (bv2nat x) produced by bvToInt.
+func peelBvToInt(t string) (inner string, width int, signed bool, ok bool) {
+	if (strings.HasPrefix(t, "(sbv2int") || strings.HasPrefix(t, "(ubv2int")) && strings.HasSuffix(t, ")") {
+		signed := t[1] == 's'
+		rest := t[len("(sbv2int"):]
+		i := strings.IndexByte(rest, ' ')
+		if i > 0 {
+			w := 0
+			fmt.Sscan(rest[:i], &w)
+			in := rest[i+1 : len(rest)-1]
+			if w > 0 && (balanced(in) || isAtomic(in)) {
+				return in, w, signed, true
+			}
+		}
+	}
+	return "", 0, false, false
+}
+
+// int2bvTerm converts an Int term to a bit-vector of width w. int2bv is a ring homomorphism modulo 2^w,
+// so it is pushed through +, -, * and integer literals; int(x) of a bit-vector x collapses to a resize of x.
+func int2bvTerm(t string, w int) string {
+	t = strings.TrimSpace(t)
+	if inner, iw, signed, ok := peelBvToInt(t); ok {
+		switch {
+		case iw == w:
+			return inner
+		case iw > w:
+			return app(fmt.Sprintf("(_ extract %d 0)", w-1), inner)
+		case !signed:
+			return app(fmt.Sprintf("(_ zero_extend %d)", w-iw), inner)
+		default:
+			return app(fmt.Sprintf("(_ sign_extend %d)", w-iw), inner)
+		}
+	}
+	if n, ok := new(big.Int).SetString(t, 10); ok {
+		return bvLit(n, w)
+	}
+	if strings.HasPrefix(t, "(") && strings.HasSuffix(t, ")") {
+		parts := splitSx(t[1 : len(t)-1])
+		if len(parts) >= 2 {
+			switch parts[0] {
+			case "+", "*":
+				op := map[string]string{"+": "bvadd", "*": "bvmul"}[parts[0]]
+				var as []string
+				for _, p := range parts[1:] {
+					as = append(as, int2bvTerm(p, w))
+				}
+				if len(as) == 1 {
+					return as[0]
+				}
+				return app(op, as...)
+			case "-":
+				if len(parts) == 2 {
+					return app("bvneg", int2bvTerm(parts[1], w))
+				}
+				r := int2bvTerm(parts[1], w)
+				for _, p := range parts[2:] {
+					r = app("bvsub", r, int2bvTerm(p, w))
+				}
+				return r
+			}
+		}
+	}
+	return fmt.Sprintf("((_ int2bv %d) %s)", w, t)
+}
+
+// splitSx splits the inside of an s-expression into its top-level items.
+func splitSx(s string) []string {
+	var out []string
+	depth, start := 0, -1
+	for i := 0; i < len(s); i++ {
+		c := s[i]
+		switch {
+		case c == '(':
+			if depth == 0 && start < 0 {
+				start = i
+			}
+			depth++
+		case c == ')':
+			depth--
+			if depth == 0 {
+				out = append(out, s[start:i+1])
+				start = -1
+			}
+		case c == ' ' || c == '\n' || c == '\t':
+			if depth == 0 && start >= 0 {
+				out = append(out, s[start:i])
+				start = -1
+			}
+		case c == '|':
+			if depth == 0 && start < 0 {
+				start = i
+			}
+			j := strings.IndexByte(s[i+1:], '|')
+			if j >= 0 {
+				i += j + 1
+			}
+		default:
+			if depth == 0 && start < 0 {
+				start = i
+			}
+		}
+	}
+	if start >= 0 {
+		out = append(out, s[start:])
+	}
+	return out
 }
